@@ -312,7 +312,13 @@ def param_vector(sc, a):
 def walk(sc, rng, length, res):
     """lock-step walk of all 8 mode combinations; returns model E requests + impl records"""
     modes = list(itertools.product([True, False], [True, False], [True, False]))
-    envs = {m: NASimEnv(sc, fully_obs=m[0], flat_actions=m[1], flat_obs=m[2]) for m in modes}
+    if getattr(sc, "_bench", None) is not None:
+        # benchmark scenarios: the eight environments come from the package's top-level entry point, flags and all
+        import nasim
+        envs = {m: nasim.make_benchmark(sc._bench[0], sc._bench[1], fully_obs=m[0], flat_actions=m[1], flat_obs=m[2])
+                for m in modes}
+    else:
+        envs = {m: NASimEnv(sc, fully_obs=m[0], flat_actions=m[1], flat_obs=m[2]) for m in modes}
     ref = envs[(True, True, False)]
     acts = ref.action_space.actions
     H = len(sc.hosts)
@@ -527,6 +533,7 @@ def kind_scenario(kind, rng):
     name, seed = kind.split("@")
     sc = nasim_make(name, int(seed))
     sc._shape = name
+    sc._bench = (name, int(seed))
     return sc
 
 
